@@ -255,7 +255,7 @@ def custom(ctx):
     try:
         common.build_driver("server")
         hbin, _ = common.build_harness("h_server")
-        bst = bld_stream(ctx, ("C06",), ["g", "gk", "gk", "gc", "gck"], 48, 1200, lens=(6, 10, 14))
+        bst = bld_stream(ctx, ("C06",), ["g", "gk", "gk", "gc", "gck", "hk", "h"], 56, 1200, lens=(6, 10, 14))
         bst.impl_cmd = [hbin, "bld"]
         bst.model_cmd = [DRIVER, "bld"]
         ctx.run_stream(bst)
